@@ -70,12 +70,19 @@ theorem lePre : IsPreorder le := ⟨le_refl, fun h1 h2 => le_trans h1 h2⟩
 
 def s0 (np : Nat) : TState := init [] (List.replicate np { held := [], cur := [] })
 
+/-- a program as a caller can start it: lock and client hook points only -/
+def isPlain : Instr Table TInstr → Bool
+  | .lock => true
+  | .client _ => true
+  | _ => false
+
 /-- removals of different processes do not overlap: a `remove-head` step is only taken while no
     other process has removals pending -/
-def Atomic (s : TState) : Event TInstr → Prop
+def Atomic (s : TState) : TEvent → Prop
   | .step pid _ => ∀ p new pend rest, s.procs[pid]? = some p → p.instrs = .rms new pend :: rest →
       ∀ (j : Nat) (q : Proc Table TInstr TLoc), j ≠ pid → s.procs[j]? = some q → NoRms q.instrs
-  | _ => True
+  | .start _ prog => ∀ i ∈ prog, isPlain i = true
+  | .crash _ => True
 
 theorem mem_pickAll {α : Type} {hs : List α} {perm : List Nat} {l : List α} (h : pickAll hs perm = some l)
     {i : Nat} (hi : i ∈ perm) {x : α} (hx : hs[i]? = some x) : x ∈ l := by
@@ -192,10 +199,10 @@ def NoEntryLostIn (t : TState) : Prop :=
 
 /-- the C21 statement for the protocol with (`g = true`) or without the name guard -/
 def NoEntryLost (g : Bool) : Prop :=
-  ∀ (w : Bool) (np : Nat) (es : List (Event TInstr)) (t : TState),
+  ∀ (w : Bool) (np : Nat) (es : List (TEvent)) (t : TState),
     RunOk Atomic w (tableClient g) (s0 np) es → run w (tableClient g) (s0 np) es = some t → NoEntryLostIn t
 
-theorem runOk_atomic {w : Bool} {s : TState} {es : List (Event TInstr)}
+theorem runOk_atomic {w : Bool} {s : TState} {es : List (TEvent)}
     (h : RunOk Atomic w (tableClient true) s es) : RunOk (AtomicOk le (tableClient true)) w (tableClient true) s es := by
   induction es generalizing s with
   | nil => trivial
@@ -204,7 +211,11 @@ theorem runOk_atomic {w : Bool} {s : TState} {es : List (Event TInstr)}
     cases e with
     | step pid arg =>
       exact ⟨fun p c rest loc' is _ _ he => expand_okA c arg s.heads p.loc loc' is he, h.1⟩
-    | start pid prog => trivial
+    | start pid prog =>
+      have hp : ∀ i ∈ prog, isPlain i = true := h.1
+      refine ⟨fun i hi => ?_, fun i hi => ?_⟩
+      · have := hp i hi; cases i <;> simp_all [isPlain, OkA]
+      · have := hp i hi; cases i <;> simp_all [isPlain, isRms]
     | crash pid => trivial
 
 theorem no_entry_lost_of_guard : NoEntryLost true := by
@@ -254,7 +265,7 @@ theorem merged_head_covers_all {g : Bool} {s : TState} (hc : Covered le s)
 
 /-- any schedule at hook granularity, crashes anywhere, locks ignored: no entry is lost as long as
     every update only removes heads strictly below the head it added (or that head itself, guarded) -/
-theorem no_entry_lost_interleaved (g w : Bool) (np : Nat) (es : List (Event TInstr)) (t : TState)
+theorem no_entry_lost_interleaved (g w : Bool) (np : Nat) (es : List (TEvent)) (t : TState)
     (hstrict : RunOk (ClientOk le (tableClient g)) w (tableClient g) (s0 np) es)
     (hrun : run w (tableClient g) (s0 np) es = some t) : NoEntryLostIn t := by
   intro T hT k hk
@@ -296,18 +307,19 @@ theorem othersIdleFrom_spec {l : List (Proc Table TInstr TLoc)} {j0 pid : Nat}
       simp only [List.getElem?_cons_succ] at hj
       exact ih h.2 j q hj (by omega)
 
-def evSeqB (s : TState) : Event TInstr → Bool
+def evSeqB (s : TState) : TEvent → Bool
   | .step pid _ => othersIdleFrom s.procs 0 pid
-  | _ => true
+  | .start _ prog => prog.all isPlain
+  | .crash _ => true
 
-def seqRunB (w : Bool) (cl : Client Table TInstr TLoc) : TState → List (Event TInstr) → Bool
+def seqRunB (w : Bool) (cl : Client Table TInstr TLoc) : TState → List (TEvent) → Bool
   | _, [] => true
   | s, e :: es => evSeqB s e && match apply w cl s e with
     | none => true
     | some t => seqRunB w cl t es
 
 /-- a run in which every step is taken while all other processes are idle is `Atomic` -/
-theorem seqRunB_sound {w : Bool} {cl : Client Table TInstr TLoc} {s : TState} {es : List (Event TInstr)}
+theorem seqRunB_sound {w : Bool} {cl : Client Table TInstr TLoc} {s : TState} {es : List (TEvent)}
     (h : seqRunB w cl s es = true) : RunOk Atomic w cl s es := by
   induction es generalizing s with
   | nil => trivial
@@ -319,7 +331,7 @@ theorem seqRunB_sound {w : Bool} {cl : Client Table TInstr TLoc} {s : TState} {e
         intro p new pend rest _ _ j q hne hj
         have := othersIdleFrom_spec h.1 j q hj (by omega)
         rw [this]; simp [NoRms]
-      | start pid prog => trivial
+      | start pid prog => exact fun i hi => List.all_eq_true.mp h.1 i hi
       | crash pid => trivial
     · intro t ht
       have h2 := h.2
@@ -328,7 +340,7 @@ theorem seqRunB_sound {w : Bool} {cl : Client Table TInstr TLoc} {s : TState} {e
 
 /-- F8: `S0: get_head; save {0→248}` · `S1: get_head; save {3→129, 5→42}` ·
     `S0 (stale): save {5→112, 3→135}` · `S2: get_head` (merges the two heads) -/
-def f8Events : List (Event TInstr) :=
+def f8Events : List (TEvent) :=
   [.start 0 progGetHead, .step 0 [], .step 0 [], .step 0 [],
    .start 0 (progSave [(0, 248)]), .step 0 [], .step 0 [], .step 0 [],
    .start 1 progGetHead, .step 1 [0],
@@ -375,7 +387,7 @@ example : RunOk Atomic true (tableClient true) (s0 3) f8Events.dropLast :=
 
 /-- crossing saves: process 0 saves `{1→1}` on top of `{1→2}`, process 1 (stale) saves `{1→2}` on
     top of `{1→1}`; both results squash to the other's parent; add, add, remove, remove -/
-def crossingEvents : List (Event TInstr) :=
+def crossingEvents : List (TEvent) :=
   [.start 0 progGetHead, .step 0 [], .step 0 [], .step 0 [],
    .start 0 (progSave [(1, 1)]), .step 0 [], .step 0 [], .step 0 [],
    .start 1 progGetHead, .step 1 [0],
